@@ -143,6 +143,24 @@ def corpus():
         yield from _ins("b", 38)
     add("partial-bulk-failure-small", h_partial)
 
+    # an insert_many whose UPSERT loop raises part-way (bind-time overflow of an id-carrying event):
+    # since a00ceb1 the loop is inside the try, the upserts that ran are counted by the finally
+    # clause (with the loop outside the try they would stay in the open transaction uncounted:
+    # 3 x 20 > 50 below)
+    def h_partial_upserts(r):
+        yield _create("b")
+        yield (MS, 0, ("insert_many", "b", (), 25))
+        yield (MS, 0, ("get_eventcount", "b"))
+        ids = r.event_ids("b")
+        yield (MS, 0, ("insert_many_badup", "b", tuple(ids[:3]), 2, 2))
+        yield (MS, 0, ("insert_many_badup", "b", tuple(ids[:1]), 0, 0))
+        yield (MS, 0, ("insert_many_badup", "nope", tuple(ids[:2]), 1, 1))
+        yield (MS, 0, ("get_eventcount", "b"))
+        for _ in range(3):
+            yield (MS, 0, ("insert_many_badup", "b", tuple(ids[:21]), 20, 0))
+        yield from _ins("b", 3)
+    add("partial-bulk-failure-in-the-upserts", h_partial_upserts)
+
     # age: one write at exactly gap after the flush, then another 1 ms later
     for gap in (9_999_000, 9_999_999, 10_000_000, 10_000_001, 10_001_000, 30 * S, 3600 * S):
         for kind in ("insert_one", "delete", "replace", "replace_last", "insert_many"):
@@ -156,7 +174,7 @@ def corpus():
                         "insert_many": ("insert_many", "b", (), 2)}[kind]
                 yield (gap, 0, spec)
                 yield (MS, 0, ("insert_one", "b"))
-                yield (gap, 0, ("insert_many", "b", (ids[1], ids[2]), 1))  # several blocks
+                yield (gap, 0, ("insert_many", "b", (ids[1], ids[2]), 1))  # several statements, one commit decision
                 yield (gap - 2 * MS, 0, ("insert_one", "b"))
             add(f"age-{kind}-{gap}", h_age)
 
